@@ -146,6 +146,7 @@ fn run_hist(args: &Args) {
             }
             for l in &all {
                 let (nl, outs) = h.exec(l);
+                i.push(format!("> {}", nl));
                 o.push(nl);
                 i.extend(outs);
             }
